@@ -67,6 +67,11 @@ def gen_case(rng, exact: bool, i: int):
         "last_values": [val() for _ in range(n)],
         "dones": [1.0 if rng.random() < 0.4 else 0.0 for _ in range(n)],
         "dict_obs": rng.random() < 0.4,
+        # coverage audit: Discrete observations / actions go through the reshape branches of add();
+        # a 0-d log_prob tensor (single env, unbatched) goes through the reshape(-1, 1) branch
+        "obs_kind": rng.choice(["box", "box", "discrete"]),
+        "act_kind": rng.choice(["box", "box", "discrete", "multidiscrete"]),
+        "scalar_logp": rng.random() < 0.3,
         "batch_size": rng.choice([None, 1, 2, 3, rng.randint(1, 70), rng.randint(1, 12)]),
         "passes": rng.randint(1, 3),
         "id": i,
@@ -79,23 +84,36 @@ def gen_case(rng, exact: bool, i: int):
 def run_impl(case):
     np, th, spaces, RolloutBuffer, DictRolloutBuffer = _imports()
     T, n = case["T"], case["n"]
-    act_space = spaces.Box(-1, 1, (2,), dtype=np.float32)
+    obs_kind, act_kind = case.get("obs_kind", "box"), case.get("act_kind", "box")
+    act_space = {"box": spaces.Box(-1, 1, (2,), dtype=np.float32), "discrete": spaces.Discrete(100000),
+                 "multidiscrete": spaces.MultiDiscrete([100000, 100000])}[act_kind]
     if case["dict_obs"]:
-        obs_space = spaces.Dict({"a": spaces.Box(-1e6, 1e6, (2,), dtype=np.float32), "b": spaces.Box(-1e6, 1e6, (1, 3), dtype=np.float32)})
+        d_space = spaces.Discrete(100000) if obs_kind == "discrete" else spaces.Box(-1e6, 1e6, (2,), dtype=np.float32)
+        obs_space = spaces.Dict({"a": d_space, "b": spaces.Box(-1e6, 1e6, (1, 3), dtype=np.float32)})
         buf = DictRolloutBuffer(T, obs_space, act_space, device="cpu", gae_lambda=case["lam"], gamma=case["gamma"], n_envs=n)
     else:
-        obs_space = spaces.Box(-1e6, 1e6, (3,), dtype=np.float32)
+        obs_space = spaces.Discrete(100000) if obs_kind == "discrete" else spaces.Box(-1e6, 1e6, (3,), dtype=np.float32)
         buf = RolloutBuffer(T, obs_space, act_space, device="cpu", gae_lambda=case["lam"], gamma=case["gamma"], n_envs=n)
     f32 = np.float32
     for t in range(T):
         tags = np.array([t * n + e + 1 for e in range(n)], dtype=f32)
+        disc = tags.astype(np.int64)
         if case["dict_obs"]:
-            obs = {"a": np.repeat(tags[:, None], 2, 1), "b": np.repeat(tags[:, None], 3, 1).reshape(n, 1, 3)}
+            a_part = disc if obs_kind == "discrete" else np.repeat(tags[:, None], 2, 1)
+            obs = {"a": a_part, "b": np.repeat(tags[:, None], 3, 1).reshape(n, 1, 3)}
         else:
-            obs = np.repeat(tags[:, None], 3, 1)
-        act = np.stack([tags + 0.5, -tags], axis=1).astype(f32)
+            obs = disc if obs_kind == "discrete" else np.repeat(tags[:, None], 3, 1)
+        if act_kind == "box":
+            act = np.stack([tags + 0.5, -tags], axis=1).astype(f32)
+        elif act_kind == "discrete":
+            act = disc.copy()
+        else:
+            act = np.stack([disc, disc + 1], axis=1)
+        logp = th.tensor([-float(x) - 0.25 for x in tags], dtype=th.float32)
+        if case.get("scalar_logp") and n == 1:
+            logp = logp.reshape(())  # 0-d tensor
         buf.add(obs, act, np.array(case["rewards"][t], dtype=f32), np.array(case["starts"][t], dtype=f32),
-                th.tensor(case["values"][t], dtype=th.float32), th.tensor([-float(x) - 0.25 for x in tags], dtype=th.float32))
+                th.tensor(case["values"][t], dtype=th.float32), logp)
     buf.compute_returns_and_advantage(th.tensor(case["last_values"], dtype=th.float32), np.array(case["dones"]) > 0.5)
     adv = buf.advantages.copy()
     ret = buf.returns.copy()
@@ -120,11 +138,11 @@ def run_impl(case):
             mbs = []
             for mb in buf.get(case["batch_size"]):
                 if case["dict_obs"]:
-                    oa = mb.observations["a"].numpy()
+                    oa = mb.observations["a"].numpy().reshape(len(mb.observations["b"]), -1)
                     ob = mb.observations["b"].numpy().reshape(len(oa), 3)
                     obs_tags = [sorted(set([float(v) for v in oa[k]] + [float(v) for v in ob[k]])) for k in range(len(oa))]
                 else:
-                    o = mb.observations.numpy()
+                    o = mb.observations.numpy().reshape(len(mb.actions), -1)
                     obs_tags = [sorted(set(float(v) for v in o[k])) for k in range(len(o))]
                 mbs.append({
                     "obs_tags": obs_tags,
@@ -261,7 +279,8 @@ def compare(case, impl, model_vals):
                 cells.append((t, e))
                 # every field from the same (t, e)
                 exp_tag = float(t * n + e + 1)
-                ok = (mb["act"][j] == [exp_tag + 0.5, -exp_tag] and mb["logp"][j] == -exp_tag - 0.25
+                exp_act = {"box": [exp_tag + 0.5, -exp_tag], "discrete": [exp_tag], "multidiscrete": [exp_tag, exp_tag + 1]}[case.get("act_kind", "box")]
+                ok = (mb["act"][j] == exp_act and mb["logp"][j] == -exp_tag - 0.25
                       and mb["val"][j] == impl["vals"][t][e] and mb["adv"][j] == impl["adv"][t][e] and mb["ret"][j] == impl["ret"][t][e])
                 if not ok:
                     probs.append(("oracle-fields-misaligned", f"pass {pi} batch {bi} sample {j}: fields not all from (step {t}, env {e})"))
@@ -319,10 +338,13 @@ def main():
         cases.append(gen_case(chk.rng, exact=(i % 2 == 0), i=i))
     impls, results = run_cases(chk, cases)
     distinct = set()
-    hist = {"exact": 0, "tol": 0, "dict_obs": 0, "T": {}, "n": {}, "batch_none": 0, "batch_not_dividing": 0}
+    hist = {"exact": 0, "tol": 0, "dict_obs": 0, "T": {}, "n": {}, "batch_none": 0, "batch_not_dividing": 0, "obs_kind": {}, "act_kind": {}, "scalar_logp": 0}
     for c, im, probs in zip(cases, impls, results):
         hist[c["kind"]] += 1
         hist["dict_obs"] += int(c["dict_obs"])
+        hist["obs_kind"][c.get("obs_kind", "box")] = hist["obs_kind"].get(c.get("obs_kind", "box"), 0) + 1
+        hist["act_kind"][c.get("act_kind", "box")] = hist["act_kind"].get(c.get("act_kind", "box"), 0) + 1
+        hist["scalar_logp"] += int(bool(c.get("scalar_logp")) and c["n"] == 1)
         hist["T"][c["T"]] = hist["T"].get(c["T"], 0) + 1
         hist["n"][c["n"]] = hist["n"].get(c["n"], 0) + 1
         hist["batch_none"] += int(c["batch_size"] is None)
